@@ -68,7 +68,7 @@ def extra_classes():
                                                              setattr(s, "loc", s.b), setattr(s, "g", s.loc)))
     # in-place adds (atomic: the kernel insists on natural alignment) on variables that follow a variable of several
     # elements whose size is not a power of two (found by C08's thorough tier: F47)
-    for multi in ("3H", "3B", "5B", "3I", "7H"):
+    for multi in ("3H", "3B", "5B", "3I", "7H", "<HI", ">BH", "<IH", "<Bq", "HB"):
         for f in "IiQqx":
             def ns(multi=multi, f=f):
                 m = ArrayMap()
